@@ -272,6 +272,28 @@ Proof.
   vm_compute. repeat split; try reflexivity. discriminate.
 Qed.
 
+(* "." and ".." components are NOT folded lexically: the key of a word that starts with "../" is the working directory
+   followed by "/../" and the rest, so the file system resolves ".." - through a symbolic link if the working directory
+   (or a directory named in the word) is one.  (Folding would name the parent of the LINK, not of its target.) *)
+Theorem glue_path_keeps_dots : forall cwd wd rest,
+  simple_abs wd = true -> last_is_sep wd = false ->
+  glue_path cwd wd (46 :: 46 :: 47 :: rest) = wd ++ 47 :: 46 :: 46 :: 47 :: rest.
+Proof.
+  intros cwd wd rest Hwd Hl.
+  assert (Hh : head_sep (46 :: 46 :: 47 :: rest) = false) by reflexivity.
+  rewrite (glue_path_relative cwd wd (46 :: 46 :: 47 :: rest) Hwd Hh). unfold join_dir. rewrite Hl. reflexivity.
+Qed.
+
+(* cwd [/w], working directory [/w/wd]: words [../x] [./x] [a/../x] [sub/./x] *)
+Example glue_path_no_dot_folding :
+  glue_path [47; 119] [47; 119; 47; 119; 100] [46; 46; 47; 120] = [47; 119; 47; 119; 100; 47; 46; 46; 47; 120] /\
+  glue_path [47; 119] [47; 119; 47; 119; 100] [46; 47; 120] = [47; 119; 47; 119; 100; 47; 46; 47; 120] /\
+  glue_path [47; 119] [47; 119; 47; 119; 100] [97; 47; 46; 46; 47; 120] = [47; 119; 47; 119; 100; 47; 97; 47; 46; 46; 47; 120] /\
+  glue_path [47; 119] [47; 119; 47; 119; 100] [115; 117; 98; 47; 46; 47; 120] = [47; 119; 47; 119; 100; 47; 115; 117; 98; 47; 46; 47; 120] /\
+  fst (process_discovered StyleDependencyInfo [47; 119] [47; 119; 47; 119; 100] [Some [0; 118; 0; 16; 46; 46; 47; 120; 0]])
+    = [[47; 119; 47; 119; 100; 47; 46; 46; 47; 120]].
+Proof. vm_compute. repeat split; reflexivity. Qed.
+
 (* ---------- non-vacuity ---------- *)
 
 (* cwd [/w], working directory [/w/sub dir], words [a b/c] (relative), [/x/y] (absolute), [./d:e] *)
